@@ -160,6 +160,21 @@ func H_C12_step() {
 	}
 	verif.Cover("pre-state-built")
 
+	// ---- optionally the same transfer was executed before inside a transaction that was discarded (a later message of it
+	// failed, or the receive ended in an error acknowledgement): it is not one of the successful transfers
+	if verif.Bool("the-same-transfer-ran-before-in-a-discarded-transaction") {
+		ta0, err := core.NewTransferAttributes(src.ProtocolId, src.CounterpartyId, nativeDenom, A)
+		must(err)
+		w.L.Set(core.ModuleAddress, nativeDenom, A)
+		_, _ = verif.AtomicallyOrAbort(ctx, func(ctx sdk.Context) error {
+			if d.DispatchPayload(ctx, ta0, pl) == nil {
+				verif.Cover("discarded-dispatch-succeeded")
+			}
+			return errRevert
+		})
+		w.CCTP.reqs, w.Hyp.reqs, w.Int.reqs = nil, nil, nil
+	}
+
 	// ---- the transfer: ICS-20 has credited A; the bridge may refuse ------------------------------------------------------
 	w.L.Set(core.ModuleAddress, nativeDenom, A)
 	w.CCTP.faults, w.Hyp.faults, w.Int.faults = true, true, true
